@@ -688,3 +688,15 @@ Proof.
   - intros b d p Hb Ed Ep. rewrite (Hd b d p Hb Ed Ep). reflexivity.
   - intros a t [Ha|[Ha|[]]] Es; subst a; vm_compute in Es; discriminate Es.
 Qed.
+
+(* known finding C19-output-replaces-unprocessed-input (the repair 3ec6354 was withdrawn: the pinned suite runs
+   `zstd -f tmp*` over tmp and tmp.zst on purpose): zstd -f --rm a a.zst with a pre-existing a.zst: the output of a
+   replaces the input a.zst before it is read; exit 0 and the original a.zst (bytes [9]) exists nowhere.  This is why
+   wf_shared_dst keeps "no destination is also a source". *)
+Definition ex5_inv : inv := mkInv Compress [[97]; p_azst] OutDefault true [true] None false false None None.
+Definition ex5_fs : fs := upd (upd (fun _ => Absent) [97] (Reg (mkFile [1] true))) p_azst (Reg (mkFile [9] true)).
+Example ex5_ops :
+  let ops := fio_ops ex5_inv no_ls ex5_fs (fun p => ok_verdict [p]) in
+  run ops ex5_fs [97] = Absent /\ run ops ex5_fs p_azst = Absent /\ exit_code ops = Some 0 /\
+  run ops ex5_fs (p_azst ++ sfx_zst) = Reg (mkFile p_azst true).
+Proof. vm_compute. repeat split; reflexivity. Qed.
